@@ -1,5 +1,360 @@
 package c18
 
-import "pgregory.net/rapid"
+import (
+	"bytes"
+	"fmt"
+	"testing"
 
-func (p *ped[E, S]) keyCase(t *rapid.T) (string, bool, []string) { return "", false, nil }
+	"pgregory.net/rapid"
+
+	"github.com/bronlabs/bron-crypto/pkg/commitments/hashcom"
+	"github.com/bronlabs/bron-crypto/pkg/commitments/intcom"
+	"github.com/bronlabs/bron-crypto/pkg/commitments/pedersencom"
+	"github.com/bronlabs/bron-crypto/pkg/transcripts"
+	"github.com/bronlabs/bron-crypto/pkg/transcripts/hagrid"
+	"verif/harness/vlib"
+)
+
+// A transcript history: a name and a list of operations, then the extraction label.
+
+type trOp struct {
+	Kind  string // "dom" | "app" | "ext"
+	Label string
+	Msgs  [][]byte
+}
+
+type trHist struct {
+	Name  string
+	Ops   []trOp
+	Label string // label passed to ExtractCommitmentKey
+}
+
+func (h trHist) String() string {
+	s := fmt.Sprintf("New(%q)", h.Name)
+	for _, o := range h.Ops {
+		switch o.Kind {
+		case "dom":
+			s += fmt.Sprintf(".Dom(%q)", o.Label)
+		case "app":
+			s += fmt.Sprintf(".App(%q", o.Label)
+			for _, m := range o.Msgs {
+				s += fmt.Sprintf(",%x", m)
+			}
+			s += ")"
+		default:
+			s += fmt.Sprintf(".Ext(%q,16)", o.Label)
+		}
+	}
+	return s + fmt.Sprintf(" -> key(%q)", h.Label)
+}
+
+func (h trHist) build(t *rapid.T) transcripts.Transcript {
+	tr := hagrid.NewTranscript(h.Name)
+	for _, o := range h.Ops {
+		switch o.Kind {
+		case "dom":
+			tr.AppendDomainSeparator(o.Label)
+		case "app":
+			tr.AppendBytes(o.Label, o.Msgs...)
+		default:
+			if _, err := tr.ExtractBytes(o.Label, 16); err != nil {
+				t.Fatalf("ExtractBytes: %v", err)
+			}
+		}
+	}
+	return tr
+}
+
+func (h trHist) clone() trHist {
+	c := trHist{Name: h.Name, Label: h.Label, Ops: make([]trOp, len(h.Ops))}
+	for i, o := range h.Ops {
+		c.Ops[i] = trOp{Kind: o.Kind, Label: o.Label, Msgs: make([][]byte, len(o.Msgs))}
+		for j, m := range o.Msgs {
+			c.Ops[i].Msgs[j] = bytes.Clone(m)
+		}
+	}
+	return c
+}
+
+var trLabelGen = rapid.OneOf(
+	rapid.SampledFrom([]string{"a", "ab", "abc", "b", "bc", "key", "key2", "h", "sid", "\x00"}),
+	rapid.StringN(1, 10, 30),
+)
+
+var trMsgGen = rapid.OneOf(
+	rapid.SampledFrom([][]byte{{}, {0}, []byte("a"), []byte("ab"), []byte("b"), []byte("c"), []byte("bc")}),
+	rapid.SliceOfN(rapid.Byte(), 0, 64),
+)
+
+func genHist(t *rapid.T) trHist {
+	h := trHist{
+		Name:  rapid.SampledFrom([]string{"", "c18", "proto-a", "proto-b"}).Draw(t, "name"),
+		Label: trLabelGen.Draw(t, "keyLabel"),
+	}
+	n := rapid.IntRange(0, 5).Draw(t, "nops")
+	for i := 0; i < n; i++ {
+		lbl := fmt.Sprintf("op%d", i)
+		switch rapid.IntRange(0, 5).Draw(t, lbl+".kind") {
+		case 0, 1:
+			h.Ops = append(h.Ops, trOp{Kind: "dom", Label: trLabelGen.Draw(t, lbl+".tag")})
+		case 2:
+			h.Ops = append(h.Ops, trOp{Kind: "ext", Label: trLabelGen.Draw(t, lbl+".label")})
+		default:
+			h.Ops = append(h.Ops, trOp{Kind: "app", Label: trLabelGen.Draw(t, lbl+".label"), Msgs: rapid.SliceOfN(trMsgGen, 0, 3).Draw(t, lbl+".msgs")})
+		}
+	}
+	return h
+}
+
+var trEdits = []string{
+	"equal", "equal", "equal-clone",
+	"key-label", "key-label-suffix", "name", "extra-append-empty", "extra-append", "extra-append-nomsg", "extra-domsep", "extra-extract",
+	"msg-bit", "msg-extra-empty", "op-label", "domsep-tag", "drop-op", "swap-ops", "resplit-label-msg",
+}
+
+// editHist derives a structurally different history (or an equal one); ok=false when the drawn
+// edit does not apply to this history.
+func editHist(t *rapid.T, h trHist, edit string) (trHist, bool) {
+	g := h.clone()
+	pick := func(kind string) int {
+		var idx []int
+		for i, o := range g.Ops {
+			if kind == "" || o.Kind == kind {
+				idx = append(idx, i)
+			}
+		}
+		if len(idx) == 0 {
+			return -1
+		}
+		return idx[rapid.IntRange(0, len(idx)-1).Draw(t, "pick")]
+	}
+	at := func() int { return rapid.IntRange(0, len(g.Ops)).Draw(t, "at") }
+	insert := func(i int, o trOp) {
+		g.Ops = append(g.Ops[:i], append([]trOp{o}, g.Ops[i:]...)...)
+	}
+	switch edit {
+	case "equal", "equal-clone":
+		return g, true
+	case "key-label":
+		g.Label = trLabelGen.Draw(t, "label2")
+		return g, g.Label != h.Label
+	case "key-label-suffix":
+		g.Label = h.Label + rapid.SampledFrom([]string{"_", "0", "_0", " "}).Draw(t, "suffix")
+		return g, true
+	case "name":
+		g.Name = h.Name + "x"
+		return g, true
+	case "extra-append-empty":
+		insert(at(), trOp{Kind: "app", Label: trLabelGen.Draw(t, "xl"), Msgs: [][]byte{{}}})
+		return g, true
+	case "extra-append-nomsg":
+		insert(at(), trOp{Kind: "app", Label: trLabelGen.Draw(t, "xl")})
+		return g, true
+	case "extra-append":
+		insert(at(), trOp{Kind: "app", Label: trLabelGen.Draw(t, "xl"), Msgs: [][]byte{trMsgGen.Draw(t, "xm")}})
+		return g, true
+	case "extra-domsep":
+		insert(at(), trOp{Kind: "dom", Label: trLabelGen.Draw(t, "xt")})
+		return g, true
+	case "extra-extract":
+		insert(at(), trOp{Kind: "ext", Label: trLabelGen.Draw(t, "xl")})
+		return g, true
+	case "msg-bit":
+		i := pick("app")
+		if i < 0 || len(g.Ops[i].Msgs) == 0 {
+			return g, false
+		}
+		j := rapid.IntRange(0, len(g.Ops[i].Msgs)-1).Draw(t, "mi")
+		if len(g.Ops[i].Msgs[j]) == 0 {
+			return g, false
+		}
+		b := rapid.IntRange(0, len(g.Ops[i].Msgs[j])*8-1).Draw(t, "bit")
+		g.Ops[i].Msgs[j][b/8] ^= 1 << (b % 8)
+		return g, true
+	case "msg-extra-empty":
+		i := pick("app")
+		if i < 0 {
+			return g, false
+		}
+		g.Ops[i].Msgs = append(g.Ops[i].Msgs, []byte{})
+		return g, true
+	case "op-label":
+		i := pick("app")
+		if i < 0 {
+			return g, false
+		}
+		g.Ops[i].Label += "'"
+		return g, true
+	case "domsep-tag":
+		i := pick("dom")
+		if i < 0 {
+			return g, false
+		}
+		g.Ops[i].Label += "'"
+		return g, true
+	case "drop-op":
+		i := pick("")
+		if i < 0 {
+			return g, false
+		}
+		g.Ops = append(g.Ops[:i], g.Ops[i+1:]...)
+		return g, true
+	case "swap-ops":
+		if len(g.Ops) < 2 {
+			return g, false
+		}
+		i := rapid.IntRange(0, len(g.Ops)-2).Draw(t, "si")
+		a, b := g.Ops[i], g.Ops[i+1]
+		if a.Kind == b.Kind && a.Label == b.Label && fmt.Sprint(a.Msgs) == fmt.Sprint(b.Msgs) {
+			return g, false
+		}
+		g.Ops[i], g.Ops[i+1] = b, a
+		return g, true
+	case "resplit-label-msg":
+		// ("ab", "c") vs ("a", "bc"): the same concatenation split differently
+		i := pick("app")
+		if i < 0 || len(g.Ops[i].Msgs) != 1 || len(g.Ops[i].Label) < 2 {
+			return g, false
+		}
+		l := g.Ops[i].Label
+		g.Ops[i].Label = l[:len(l)-1]
+		g.Ops[i].Msgs[0] = append([]byte{l[len(l)-1]}, g.Ops[i].Msgs[0]...)
+		return g, true
+	}
+	return g, false
+}
+
+// keyPair extracts a key of the drawn scheme from both histories and reports whether the two
+// keys are equal; it also returns a printable form of both.
+type keyScheme struct {
+	name string
+	run  func(t *rapid.T, h1, h2 trHist, clone bool) (equal bool, show string)
+}
+
+func trPair(t *rapid.T, h1, h2 trHist, clone bool) (transcripts.Transcript, transcripts.Transcript) {
+	t1 := h1.build(t)
+	if clone {
+		return t1, t1.Clone()
+	}
+	return t1, h2.build(t)
+}
+
+func hashKeyScheme() keyScheme {
+	return keyScheme{name: "hashcom", run: func(t *rapid.T, h1, h2 trHist, clone bool) (bool, string) {
+		t1, t2 := trPair(t, h1, h2, clone)
+		k1, e1 := hashcom.ExtractCommitmentKey(t1, h1.Label)
+		k2, e2 := hashcom.ExtractCommitmentKey(t2, h2.Label)
+		if e1 != nil || e2 != nil {
+			t.Fatalf("hashcom.ExtractCommitmentKey: %v / %v", e1, e2)
+		}
+		eq := k1.Equal(k2)
+		if eq != bytes.Equal(k1[:], k2[:]) || eq != k2.Equal(k1) {
+			t.Fatalf("hashcom key Equal disagrees with the key bytes: %x vs %x", k1[:], k2[:])
+		}
+		return eq, fmt.Sprintf("%x vs %x", k1[:], k2[:])
+	}}
+}
+
+func (p *ped[E, S]) keyScheme() keyScheme {
+	return keyScheme{name: "pedersen/" + p.nm, run: func(t *rapid.T, h1, h2 trHist, clone bool) (bool, string) {
+		t1, t2 := trPair(t, h1, h2, clone)
+		base := p.group.Generator()
+		k1, e1 := pedersencom.ExtractCommitmentKey(t1, h1.Label, base)
+		k2, e2 := pedersencom.ExtractCommitmentKey(t2, h2.Label, base)
+		if e1 != nil || e2 != nil {
+			t.Fatalf("pedersencom.ExtractCommitmentKey(%s): %v / %v", p.nm, e1, e2)
+		}
+		for _, k := range []*pedersencom.CommitmentKey[E, S]{k1, k2} {
+			if !k.G().Equal(base) {
+				t.Fatalf("%s: extracted key does not use the given base point", p.nm)
+			}
+			if k.H().IsOpIdentity() || k.H().Equal(k.G()) {
+				t.Fatalf("%s: extracted h is degenerate: g=%x h=%x", p.nm, k.G().Bytes(), k.H().Bytes())
+			}
+			if !k.H().IsTorsionFree() {
+				t.Fatalf("%s: extracted h=%x is outside the prime-order group", p.nm, k.H().Bytes())
+			}
+		}
+		eq := k1.Equal(k2)
+		if eq != k1.H().Equal(k2.H()) || eq != bytes.Equal(k1.H().Bytes(), k2.H().Bytes()) || eq != k2.Equal(k1) {
+			t.Fatalf("%s: key Equal disagrees with equality of h (%x vs %x)", p.nm, k1.H().Bytes(), k2.H().Bytes())
+		}
+		return eq, fmt.Sprintf("h=%x vs h=%x", k1.H().Bytes(), k2.H().Bytes())
+	}}
+}
+
+func intKeyScheme(t *rapid.T) keyScheme {
+	bits := rapid.SampledFrom([]int{512, 512, 512, 768}).Draw(t, "ibits")
+	kind := rapid.SampledFrom([]string{"safe", "safe", "blum", "ord"}).Draw(t, "ikind")
+	i := rapid.IntRange(0, 2).Draw(t, "ii")
+	k := getIntKey(t, bits, kind, i, i+1, 0, "trapdoor") // only the group is used
+	view := rapid.SampledFrom([]string{"known", "unknown", "mixed"}).Draw(t, "iview")
+	return keyScheme{name: fmt.Sprintf("intcom/%d/%s/%s", 2*bits, kind, view), run: func(t *rapid.T, h1, h2 trHist, clone bool) (bool, string) {
+		t1, t2 := trPair(t, h1, h2, clone)
+		var k1, k2 *intcom.CommitmentKey
+		var e1, e2 error
+		switch view {
+		case "known":
+			k1, e1 = intcom.ExtractCommitmentKey(t1, h1.Label, k.group)
+			k2, e2 = intcom.ExtractCommitmentKey(t2, h2.Label, k.group)
+		case "unknown":
+			k1, e1 = intcom.ExtractCommitmentKey(t1, h1.Label, k.group.ForgetOrder())
+			k2, e2 = intcom.ExtractCommitmentKey(t2, h2.Label, k.group.ForgetOrder())
+		default:
+			// the holder of the factorisation and a party that only knows N derive the same key
+			k1, e1 = intcom.ExtractCommitmentKey(t1, h1.Label, k.group)
+			k2, e2 = intcom.ExtractCommitmentKey(t2, h2.Label, k.group.ForgetOrder())
+		}
+		if e1 != nil || e2 != nil {
+			t.Fatalf("intcom.ExtractCommitmentKey: %v / %v", e1, e2)
+		}
+		for _, kk := range []*intcom.CommitmentKey{k1, k2} {
+			if kk.S().Equal(kk.T()) || kk.S().IsOne() || kk.T().IsOne() {
+				t.Fatalf("intcom: extracted generators are degenerate: s=%s t=%s", kk.S(), kk.T())
+			}
+		}
+		eq := k1.Equal(k2)
+		sEq, tEq := k1.S().Equal(k2.S()), k1.T().Equal(k2.T())
+		if eq != (sEq && tEq) || eq != k2.Equal(k1) {
+			t.Fatalf("intcom: key Equal (%v) disagrees with generator equality (s %v, t %v)", eq, sEq, tEq)
+		}
+		if !eq && (sEq || tEq) {
+			// each generator is its own extraction from the edited transcript: both must differ
+			t.Fatalf("intcom: transcripts differ but a generator coincides (s equal: %v, t equal: %v)", sEq, tEq)
+		}
+		return eq, fmt.Sprintf("s=%s.. vs s=%s..", short(k1.S().Value().Lift().Big()), short(k2.S().Value().Lift().Big()))
+	}}
+}
+
+// TestKeysFromTranscripts: equal transcripts give equal commitment keys, any difference in the
+// history or in the label gives a different key (hashcom, Pedersen on each curve, intcom).
+func TestKeysFromTranscripts(t *testing.T) {
+	const test = "KeysFromTranscripts"
+	vlib.Check(t, 3000, func(t *rapid.T) {
+		var sch keyScheme
+		switch s := rapid.IntRange(0, 9).Draw(t, "scheme"); {
+		case s <= 2:
+			sch = hashKeyScheme()
+		case s <= 7:
+			sch = drawCurve(t).keyScheme()
+		default:
+			sch = intKeyScheme(t)
+		}
+		h1 := genHist(t)
+		edit := rapid.SampledFrom(trEdits).Draw(t, "edit")
+		h2, ok := editHist(t, h1, edit)
+		if !ok {
+			edit = "equal"
+			h2 = h1.clone()
+		}
+		wantEqual := edit == "equal" || edit == "equal-clone"
+		eq, show := sch.run(t, h1, h2, edit == "equal-clone")
+		if eq != wantEqual {
+			t.Fatalf("%s: keys equal=%v, want %v after edit %q\n A: %s\n B: %s\n keys: %s", sch.name, eq, wantEqual, edit, h1, h2, show)
+		}
+		vlib.Sample("keys/"+edit, map[string]any{"scheme": sch.name, "A": h1.String(), "B": h2.String(), "keys": show})
+		schemeClass := sch.name
+		vlib.Case(test, vlib.Desc("keys", schemeClass, edit, len(h1.Ops)), !wantEqual,
+			"scheme="+schemeClass, "edit="+edit, fmt.Sprintf("ops=%d", len(h1.Ops)))
+	})
+}
